@@ -1,0 +1,31 @@
+//go:build verif
+
+// Export shims for the verification harness under /verif (property C18, build tag "verif" only).
+package cache
+
+import (
+	"time"
+
+	"istio.io/istio/pkg/security"
+)
+
+// VerifRotateTime exposes the unexported rotateTime function variable.
+func VerifRotateTime(secret security.SecretItem, graceRatio float64, graceRatioJitter float64) time.Duration {
+	return rotateTime(secret, graceRatio, graceRatioJitter)
+}
+
+// VerifCloseWatcher closes the fsnotify watcher so that handleFileWatch and the watcher's reader goroutine
+// exit (the harness runs the client inside a testing/synctest bubble, where a goroutine parked in the
+// network poller would keep the fake clock from advancing). File-watch behaviour is outside C18's model.
+func (sc *SecretManagerClient) VerifCloseWatcher() {
+	_ = sc.certWatcher.Close()
+}
+
+// VerifCacheState returns the cached workload item (nil if none), the last seen root and the configured
+// trust bundle.
+func (sc *SecretManagerClient) VerifCacheState() (workload *security.SecretItem, certRoot []byte, trustBundle []byte) {
+	sc.configTrustBundleMutex.RLock()
+	tb := sc.configTrustBundle
+	sc.configTrustBundleMutex.RUnlock()
+	return sc.cache.GetWorkload(), sc.cache.GetRoot(), tb
+}
